@@ -94,6 +94,57 @@ macro_rules! c10_ops {
                     assert!(same(F::N, &dx, x.blocks()));
                 }
                 11 => assert!(da.num_bits() == a.num_bits() && da.num_blocks() == a.num_blocks() && da.num_vars() == a.num_vars()),
+                // the remaining operator-trait forms and the compound assignments, same form on both types
+                30 => assert!(same(F::N, &(da.clone() & db.clone()), (a.clone() & b.clone()).blocks())),
+                31 => assert!(same(F::N, &(da.clone() & &db), (a.clone() & &b).blocks())),
+                32 => assert!(same(F::N, &(&da & db.clone()), (&a & b.clone()).blocks())),
+                33 => assert!(same(F::N, &(da.clone() | db.clone()), (a.clone() | b.clone()).blocks())),
+                34 => assert!(same(F::N, &(da.clone() | &db), (a.clone() | &b).blocks())),
+                35 => assert!(same(F::N, &(&da | db.clone()), (&a | b.clone()).blocks())),
+                36 => assert!(same(F::N, &(da.clone() ^ db.clone()), (a.clone() ^ b.clone()).blocks())),
+                37 => assert!(same(F::N, &(da.clone() ^ &db), (a.clone() ^ &b).blocks())),
+                38 => assert!(same(F::N, &(&da ^ db.clone()), (&a ^ b.clone()).blocks())),
+                39 => assert!(same(F::N, &(!da.clone()), (!a.clone()).blocks())),
+                40 => {
+                    let mut x = a.clone();
+                    let mut dx = da.clone();
+                    x &= b.clone();
+                    dx &= db.clone();
+                    assert!(same(F::N, &dx, x.blocks()));
+                    x |= &a;
+                    dx |= &da;
+                    assert!(same(F::N, &dx, x.blocks()));
+                    x ^= b.clone();
+                    dx ^= db.clone();
+                    assert!(same(F::N, &dx, x.blocks()));
+                }
+                41 => {
+                    let mut x = a.clone();
+                    let mut dx = da.clone();
+                    x &= &b;
+                    dx &= &db;
+                    assert!(same(F::N, &dx, x.blocks()));
+                    x |= a.clone();
+                    dx |= da.clone();
+                    assert!(same(F::N, &dx, x.blocks()));
+                    x ^= &b;
+                    dx ^= &db;
+                    assert!(same(F::N, &dx, x.blocks()));
+                }
+                42 => {
+                    let mut x = a.clone();
+                    let mut dx = da.clone();
+                    x.and_inplace(&b);
+                    dx.and_inplace(&db);
+                    assert!(same(F::N, &dx, x.blocks()));
+                    x.or_inplace(&a);
+                    dx.or_inplace(&da);
+                    x.xor_inplace(&b);
+                    dx.xor_inplace(&db);
+                    x.not_inplace();
+                    dx.not_inplace();
+                    assert!(same(F::N, &dx, x.blocks()));
+                }
                 _ => {}
             }
             if F::N >= 1 {
